@@ -93,6 +93,10 @@ fn main() {
         silence_panics();
         std::process::exit(deser::one_child(&args.get(2).cloned().unwrap_or_default()));
     }
+    if prop == "OPS-one" {
+        silence_panics();
+        std::process::exit(gvlib::fuzzrun::ops_one_child(&args.get(2).cloned().unwrap_or_default(), &args.get(3).cloned().unwrap_or_default()));
+    }
     if prop == "C17-free" {
         // child process of the C17 free-running tier: gv C17-free <flavour> <shape idx> <iterations>
         silence_panics();
@@ -147,5 +151,11 @@ fn main() {
     st.samples.clear();
     ctx.stats.merge(st);
     run_property(&prop, &mut ctx);
+    if tier == Tier::Thorough && ["C01", "C02", "C03", "C04", "C05", "C06", "C07", "C08", "C09", "C10", "C18", "C19", "C20"].contains(&prop.as_str()) {
+        // auxiliary coverage-guided campaign: the `ops` target decodes bytes into this property's
+        // structured cases and runs the same oracles
+        ctx.watchdog.limit_s.store(900, std::sync::atomic::Ordering::Relaxed);
+        gvlib::fuzzrun::ops_campaign(&mut ctx, &prop, 1_600_000, 16);
+    }
     std::process::exit(ctx.finish());
 }
